@@ -7,7 +7,10 @@ Correspondence (L1):
                handed to `_create` vs the real block's design / crossings after `_create`
                (names, HiddenName flag, derived flag, window factors, level names and weights);
   L1-weights   `combo_weights` / `crossing_size_wo` vs the real `combination_weight` of every
-               combination of every crossing and `crossing_size_without_exclusions`.
+               combination of every crossing and `crossing_size_without_exclusions`;
+  L1-desugarsem  Front/DesugarSem.v `widen` / `orig` (the objects of C23_desugared_valid and
+               C23_desugared_fibre) vs the documented normal form of the twin program with
+               separately named copies and the twin's copy -> original-name map.
 Search (the property itself):
   (a) crossed weighted factors (simple or derived, in every crossing): the exhausted
       IterateSATGen set equals the set the reference oracle enumerates for
@@ -325,6 +328,25 @@ def hand_uncrossed():
     return out
 
 
+def desugarsem_observation(program, fid):
+    """(model line, expected) or None: the documented normal form of the twin (named copies) must be
+    Front/DesugarSem.v's [widen] of the program's own form, and the twin's copy -> original-name map its [orig]."""
+    from props.c25 import show_sem
+    twin, back = twin_program(program, fid)
+    try:
+        ds, dt = docsem.doc_sem(program), docsem.doc_sem(twin)
+    except docsem.Unsupported:
+        return None
+    if fid not in ds.forder or ds.forder != dt.forder:
+        return None
+    fd = [f for f in program["factors"] if f["id"] == fid][0]
+    names = [n for n, _ in fd["levels"]]
+    tnames = dt.levels[fid]
+    origs = [names.index(back[n]) for n in tnames]
+    line = "(desugarsem %d %s %s)" % (ds.forder.index(fid), to_wire([w for _, w in fd["levels"]]), to_wire(ds.sem))
+    return line, "%s (%s)" % (show_sem(dt.sem), " ".join(map(str, origs)))
+
+
 def check_twin(program, fid, stats):
     twin, back = twin_program(program, fid)
     names = ir.user_factor_names(program)
@@ -401,6 +423,14 @@ def run(ctx, res):
     for tag, p, fid in hand_uncrossed() + [("gen",) + gen_uncrossed(rng) for _ in range(nb)]:
         corr(p)
         try:
+            ob = desugarsem_observation(p, fid)
+        except Exception as e:  # noqa
+            ob = None
+            found.append(("harness", "harness error in desugarsem_observation: %s %s" % (type(e).__name__, str(e)[:200]), {}, p, False))
+        if ob is not None:
+            lines.append(ob[0])
+            expect.append(("desugarsem", ob[1], p))
+        try:
             fs, status = check_twin(p, fid, stats)
         except Exception as e:  # noqa
             found.append(("harness", "harness error: %s %s" % (type(e).__name__, str(e)[:300]), {}, p, False))
@@ -415,6 +445,15 @@ def run(ctx, res):
     outs = ctx.model(lines) if lines else []
     corr_bad = []
     for (kind, real, p), mod in zip(expect, outs):
+        if kind == "desugarsem":
+            # claimed only under the guard free_b of C23_desugared_valid (factor in no crossing, read by no
+            # derived factor, named by no constraint)
+            guard, _, rest = mod.partition(" ")
+            if guard != "true":
+                stats["desugarsem:outside-guard"] += 1
+                continue
+            stats["desugarsem:free"] += 1
+            mod = rest
         ok = (real == mod)
         res.layer("L1-" + kind, ok)
         if not ok:
